@@ -110,7 +110,7 @@ class TreeGen:
 
     def binder(self):
         rng = self.rng
-        k = rng.choice(['S', 'S', 'S-from', 'S-multi', 'A', 'A.globals', 'vars-new', 'vars-set'])
+        k = rng.choice(['S', 'S', 'S-from', 'S-multi', 'A', 'A.globals', 'vars-new', 'vars-set', 'S-inner'])
         name = rng.choice(NAMES)
         self.kinds.add('bind:' + k)
         if k == 'S-multi':
@@ -121,6 +121,20 @@ class TreeGen:
             u = self.uval()
             spec = S(**{name: Val(u), other: Coalesce(getattr(S, src), default=ABSENT)})
             return Node('bind_S_multi', spec, name=name, value=u, other=other, src=src)
+        if k == 'S-inner':
+            # a binder written directly as the VALUE of an S() keyword: the value is evaluated like any argument, in a frame of its
+            # own, so what it binds is gone when the step ends; only the keyword itself is bound (to the binder's result, the target)
+            inner = rng.choice([n for n in NAMES if n != name])
+            form = rng.choice(['A', 'S', 'A+reader'])
+            if form == 'A':
+                spec = S(**{name: getattr(A, inner)})
+            elif form == 'S':
+                spec = S(**{name: S(**{inner: Val(self.uval())})})
+            else:
+                third = rng.choice([n for n in NAMES if n not in (name, inner)])
+                spec = S(**{name: getattr(A, inner), third: Coalesce(getattr(S, inner), default=ABSENT)})
+                return Node('bind_S_inner', spec, name=name, third=third, inner=inner)
+            return Node('bind_S_inner', spec, name=name, third=None, inner=inner)
         if k == 'S':
             # (a tenth of the bound values are None: a binding to None is a binding)
             u = self.uval() if rng.random() > 0.1 else None
@@ -275,6 +289,15 @@ class Model:
             F.vars[node.other] = seen
             return target
         if k == 'bind_A':
+            F.vars[node.name] = target
+            return target
+        if k == 'bind_S_inner':
+            if node.third is not None:
+                try:
+                    seen = F.lookup(node.inner)      # (the sibling keyword reads the scope as it was before the step)
+                except KeyError:
+                    seen = ABSENT
+                F.vars[node.third] = seen
             F.vars[node.name] = target
             return target
         if k == 'bind_G':
@@ -585,6 +608,28 @@ def literal_bindings_do_not_outlive_the_call(col):
         ('S(acc=[]) per list element', lambda: [(S(acc=[]), S.acc.append(T), S.acc)], [1, 2, 3], [[1], [2], [3]]),
         # (not Vars(items=[]): the initial values of a Vars are the very objects given, like Val(..) - a mutable one is shared)
     ]
+    # the same after an evaluation of the spec object that FAILED while the literal was being built (an element of the literal
+    # cannot be computed for that target): the next evaluations bind what their own target says
+    after_failure = [
+        ("S(pair=[T['a'], T['b']]) after a target without 'b'", lambda: (S(pair=[T['a'], T['b']]), S.pair),
+         [{'a': 0}, {'a': 1, 'b': 2}, {'a': 3, 'b': 4}], [None, [1, 2], [3, 4]]),
+        ("S(rec={'k': T['k'], 'v': T['v']}) per list element, first element incomplete",
+         lambda: [Coalesce((S(rec={'k': T['k'], 'v': T['v']}), S.rec), default='skipped')],
+         [[{'k': 'x'}, {'k': 'y', 'v': 2}, {'k': 'z', 'v': 3}]], [['skipped', {'k': 'y', 'v': 2}, {'k': 'z', 'v': 3}]]),
+        ("Or(S(pair=[..]) branch fails, next evaluation", lambda: Coalesce((S(pair=[T['a'], [T['b']]]), S.pair), default='no pair'),
+         [{'a': 1}, {'a': 5, 'b': 6}, {'a': 1}, {'a': 7, 'b': 8}], ['no pair', [5, [6]], 'no pair', [7, [8]]]),
+    ]
+    for desc, mk, targets, wants in after_failure:
+        spec = mk()
+        for n, (target, want) in enumerate(zip(targets, wants), 1):
+            got = call(G, target, spec)
+            col.case(('literal-binding-after-failure', desc, n), True)
+            col.count('reader_observations')
+            if (want is None and got.ok) or (want is not None and (not got.ok or got.value != want)):
+                col.violation('C07/literal-binding-outlives-the-call:after-a-failed-evaluation',
+                              '%s, evaluation #%d of one spec object on %r: %r, expected %r'
+                              % (desc, n, target, got, want if want is not None else 'an error'), None)
+                break
     for desc, mk, target, want in cases:
         spec = mk()
         for n in (1, 2, 3):
